@@ -1,0 +1,47 @@
+//go:build verif
+
+// Contracts for the verification machinery in /verif (comment-only; no declarations).
+// C09: address book (datastore-backed): expiry filtering, in-place deletion, TTL write modes.
+
+package pstoreds
+
+// ---------------------------------------------------------------------------
+// record level: entries are kept sorted by expiry (soonest first) whenever the record is not dirty
+
+//@ pred sortedByExpiry(s []*pb.AddrBookRecord_AddrEntry) =
+//@     forall i int, j int :: 0 <= i && i < j && j < len(s) ==> s[i].Expiry <= s[j].Expiry
+
+//@ func removeExpired
+//@ prop C09
+//@ loop 0 invariant 0 <= idx0 && idx0 <= len(entries) && pivot == idx0 - 1
+//@ loop 0 invariant forall k int :: 0 <= k && k < idx0 ==> entries[k].Expiry <= now
+//@ ensures len(result) <= len(entries)
+//@ ensures forall k int :: 0 <= k && k < len(result) ==> result[k] == entries[k + (len(entries) - len(result))]
+//@ ensures forall k int :: 0 <= k && k < len(entries) - len(result) ==> entries[k].Expiry <= now
+//@ ensures len(result) > 0 ==> result[0].Expiry > now
+//@ ensures sortedByExpiry(entries) ==> forall k int :: 0 <= k && k < len(result) ==> result[k].Expiry > now
+//@ modifies nothing
+
+//@ func (r *addrsRecord) hasExpiredAddrs
+//@ prop C09
+//@ ensures result <==> (len(r.Addrs) > 0 && r.Addrs[0].Expiry <= now)
+//@ modifies nothing
+
+// ---------------------------------------------------------------------------
+// deleteInPlace: the result holds exactly the entries of s that are not named by addrs
+// (order is irrelevant: the record is re-sorted before it is flushed)
+
+//@ pred namedBy(addrs []ma.Multiaddr, x *pb.AddrBookRecord_AddrEntry) =
+//@     exists j int :: 0 <= j && j < len(addrs) && bytes.Equal(addrs[j].Bytes(), x.Addr)
+
+//@ func deleteInPlace
+//@ prop C09
+//@ loop 0 invariant 0 <= idx0 && idx0 <= len(s) && survived <= len(s) && (len(s) == 0 || 1 <= survived)
+//@ loop 1 invariant 0 <= idx1 && idx1 <= len(addrs) && survived <= len(s) && 1 <= survived
+//@ ensures len(result) <= len(s)
+//@ ensures forall i int :: 0 <= i && i < len(result) ==>
+//@         exists k int :: 0 <= k && k < len(s) && result[i] == old(s[k]) && !old(namedBy(addrs, s[k]))
+//@ ensures forall k int :: 0 <= k && k < len(s) && !old(namedBy(addrs, s[k])) ==>
+//@         exists i int :: 0 <= i && i < len(result) && result[i] == old(s[k])
+//@ ensures forall x *pb.AddrBookRecord_AddrEntry :: x.Expiry == old(x.Expiry) && x.Ttl == old(x.Ttl)
+//@ modifies elems(s)
